@@ -158,6 +158,10 @@ Lemma se_frame_re_python C (OK : cc_ok C) s :
   rmatch C gen_se_items true s [] = option_map enc (se_frame_re C s).
 Proof. apply (se_frame_re_is_re C). reflexivity. Qed.
 
+Lemma repeat_re_python C (OK : cc_ok C) s :
+  rmatch C gen_repeat_items true s [] = match repeat_re C s with Some d => Some [(1, d)] | None => None end.
+Proof. apply (repeat_re_is_re C OK). reflexivity. Qed.
+
 Lemma underline_re_python C s :
   (if rmatch C gen_underline_items true s [] then true else false) = underline_re s.
 Proof.
